@@ -478,6 +478,17 @@ func judgeUPCEAN(tr *Trace10, o readOut, carried string, ok bool, probe func(str
 		return "", &fail{"reader/returns-unverified", what + fmt.Sprintf(": returned %q, whose check digit does not verify", o.text)}
 	}
 	if !ok {
+		if tr.Scale > 0 && o.text != carried {
+			// Image path only (row-reversal retry + tolerant pattern matching):
+			// the reader produced some OTHER number that does verify. No
+			// checksum can exclude that (a misread garbage string passes mod 10
+			// one time in ten); whether a located symbol may ever be misread is
+			// C09's statement, which this technique does not decide. Counted,
+			// never reported under C10. At scale 0 (DecodeRow, exact widths,
+			// forward only) the strict rule below applies.
+			probe("probe.image_path_misread_that_verifies(C09_territory)")
+			return "ok:misread that verifies", nil
+		}
 		return "", &fail{"reader/accepts-failed-check", what + fmt.Sprintf(": the carried number fails the check, yet the reader returned %q", o.text)}
 	}
 	if o.text != carried {
